@@ -25,7 +25,11 @@ RULE = ('Two layers. (1) Ordering core: EVERY directed graph without self-loops 
         'fresh interpreter; the order of creating_models / applying_evolution / '
         'applying_migration signals is checked against every requirement both of whose ends '
         'are pending, every pending unit must be announced exactly once, and a cyclic '
-        'configuration must be refused with an error and no change. evaluations = graphs + '
+        'configuration must be refused with an error and no change. Stratum "handover" (the '
+        'C10 generator with a migrations-only neighbour): the evolution that holds '
+        'MoveToDjangoMigrations also declares AFTER_MIGRATIONS on the neighbour\'s pending '
+        'migration; that migration must be announced before the evolution whenever both run '
+        '(non-trivial there = both were announced). evaluations = graphs + '
         'projects; non-trivial = graph with >=2 edges / project with >=2 requirements in force '
         'between pending units; distinct = the graph / SHA-1 of the project.')
 ASSUMPTIONS = [
@@ -575,6 +579,12 @@ def jobs(tier, scale=1.0):
     strata = ['main', 'small', 'main', 'cyclic']
     for i in range(16):
         out.append({'kind': 'hyp', 'stratum': strata[i % 4], 'shard': i, 'examples': per})
+    # hand-over stratum: the C10 generator with a migrations-only neighbour whose migration the
+    # hand-over evolution declares itself AFTER (a declared requirement next to the one that
+    # MoveToDjangoMigrations generates)
+    for i in range(2):
+        out.append({'kind': 'hyp', 'stratum': 'handover', 'shard': 16 + i,
+                    'examples': max(1, per // 2)})
     return out
 
 
@@ -605,6 +615,13 @@ def run_job(job, seed, rec, tier):
                 case = {'graph': [n, code, bool(code & 1) ^ bool(n & 1)]}
                 rec.record(case, check(case))
         return
+    if job['stratum'] == 'handover':
+        from . import c10
+        strat = c10.cases('evolving').map(
+            lambda c: {'handover': dict(c, mig_neighbour=True, declared_after=True)})
+        RUN.hyp_job(strat, check, job['examples'], seed, rec,
+                    max_seconds=(150 if tier == 'quick' else 3000))
+        return
     RUN.hyp_job(cases(job['stratum']), check, job['examples'], seed, rec,
                 max_seconds=(150 if tier == 'quick' else 3000))
 
@@ -619,7 +636,24 @@ def check(case):
                 'atoms': atoms, 'nontrivial': len(edges) >= 2,
                 'nontrivial_keys': ['g%d:%d' % (n, code)],
                 'sample': {'n': n, 'edges': edges} if code % 9973 == 0 else None}
+    if 'handover' in case:
+        return check_handover(case['handover'])
     return check_project(case)
+
+
+def check_handover(c10case):
+    """C10's harness, judged for C09 only: the declared AFTER_MIGRATIONS of the hand-over
+    evolution must hold whenever both units are announced in the run."""
+    from ..run import sha
+    from . import c10
+    r = c10.check(c10case)
+    keep = [a for a in r.get('atoms', []) if a[0] == 'declared_after_migration_broken']
+    inforce = 'handover_requirement_in_force' in r.get('labels', [])
+    return {'labels': ['handover'] + [l for l in r.get('labels', []) if l.startswith('handover_')],
+            'atoms': [['requirement_broken', 'declared', 'handover_evo>mig', a[1]] for a in keep],
+            'nontrivial': inforce, 'nontrivial_keys': [sha(c10case)],
+            'rejected': r.get('rejected'),
+            'sample': {'handover': {k: c10case[k] for k in ('k', 'm', 'p', 'start', 'entry')}}}
 
 
 def atom_bucket(atom):
@@ -637,6 +671,12 @@ def candidates(case):
         for k in range(bits):
             if code >> k & 1:
                 yield {'graph': [n, code & ~(1 << k), df]}
+        return
+    if 'handover' in case:
+        h = case['handover']
+        for key in ('evo_neighbour', 'split_move', 'default_arg'):
+            if h.get(key):
+                yield {'handover': dict(h, **{key: False})}
         return
     for i in reversed(range(len(case['reqs']))):
         c = copy.deepcopy(case)
